@@ -1,9 +1,13 @@
 (* Extraction of the C09 JitAllocator model (ExtrOcamlBasic only; numbers stay Coq's positive/Z datatypes). *)
 From Coq Require Extraction ExtrOcamlBasic.
 From Verif Require Import Jit.JitModel Jit.JitCursorModel Jit.JitSpec Jit.JitVmModel.
+From Verif Require Import Containers.BitVecModel Containers.RangeIterModel.
+From Verif Require Import Jit.JitFill.
 Extraction Blacklist List String Int.
 Extraction "jitmodel.ml" JitModel.init_state JitModel.alloc JitModel.release JitModel.shrink JitModel.query JitModel.reset
   JitModel.statistics JitModel.is_initialized JitModel.state_wsound JitModel.block_wsound JitModel.find_block JitModel.pool_gran
   JitModel.fixed JitModel.pinned
   JitCursorModel.init_cstate JitCursorModel.alloc_c JitCursorModel.release_c JitCursorModel.shrink_c JitCursorModel.reset_c
-  JitCursorModel.get_cur JitSpec.spec_run JitVmModel.alloc_vm.
+  JitCursorModel.get_cur JitSpec.spec_run JitVmModel.alloc_vm
+  RangeIterModel.ranges BitVecModel.bv_fill BitVecModel.bv_clear BitVecModel.bv_index_of
+  JitFill.fill_events JitFill.ev_bytes.
